@@ -303,7 +303,7 @@ func (r *runner) suiteFuncs() {
 	}
 	r.check("translator", "tab PieceValues.len 0", fmt.Sprint(len(heur.PieceValues)), "")
 	for i, v := range heur.PieceValues {
-		r.check("translator", fmt.Sprintf("tab PieceValues %d", i), fmt.Sprint(v), "")
+		r.check("translator", fmt.Sprintf("tab PieceValues %d", i), fmt.Sprint(int64(v)), "")
 	}
 	// Clamp / Abs / Signum
 	for _, x := range edge64 {
@@ -327,8 +327,8 @@ func (r *runner) suiteFuncs() {
 	}
 	for v := math.MinInt16; v <= math.MaxInt16; v++ { // exhaustive over int16
 		s := chess.Score(v)
-		r.fn("absS16", func() string { return fmt.Sprint(chess.Abs(s)) }, int64(v))
-		r.fn("signumS16", func() string { return fmt.Sprint(chess.Signum(s)) }, int64(v))
+		r.fn("absS16", func() string { return fmt.Sprint(int64(chess.Abs(s))) }, int64(v))
+		r.fn("signumS16", func() string { return fmt.Sprint(int64(chess.Signum(s))) }, int64(v))
 		r.fn("isMate", func() string { return fmt.Sprint(b2i(s.IsMate())) }, int64(v))
 	}
 	// transp.quality (hook) and entry.Value (through a one-bucket table)
@@ -348,7 +348,7 @@ func (r *runner) suiteFuncs() {
 			if !ok {
 				return "lookup-failed"
 			}
-			return fmt.Sprint(e.Value(ply))
+			return fmt.Sprint(int64(e.Value(ply)))
 		}, int64(v), int64(ply))
 	}
 	for v := math.MinInt16; v <= math.MaxInt16; v++ { // every stored value × boundary plies
